@@ -1,5 +1,300 @@
-"""datetime theory (assumption A-DT) — installed into the engine's model table."""
+"""datetime theory (assumption A-DT).
+
+A naive datetime is the integer number of MICROSECONDS since 1970-01-01T00:00:00 (Opaque('dt', (us,))), a timedelta
+an integer number of microseconds (Opaque('td', (us,))).  Time of day is plain modular arithmetic.  The civil calendar
+is AXIOMATISED, not computed: uninterpreted functions
+
+    DAYS(y, m, d) : day number of a civil date        CY(n), CM(n), CD(n) : civil date of a day number
+    DIM(y, m)     : days in month
+
+with the facts instantiated on demand at the terms that occur (no quantifiers reach the solver):
+    validity  1 <= m <= 12, 1 <= d <= DIM(y, m)          DIM by cases, leap years by the Gregorian rule
+    DAYS(1970,1,1) = 0;  DAYS(y,m,d) = DAYS(y,m,1) + d - 1
+    DAYS(y,m+1,1) = DAYS(y,m,1) + DIM(y,m)  (m < 12);   DAYS(y+1,1,1) = DAYS(y,12,1) + 31
+    civil(DAYS(y,m,d)) = (y,m,d) for valid dates;  DAYS(civil(n)) = n and civil(n) is valid
+These are exactly the properties of the proleptic Gregorian calendar that python's datetime implements
+(checked against the running interpreter by selftest/conformance.py).  Time zones do not exist in this theory:
+a call that would consult the local zone (timestamp(), fromtimestamp(), today(), now()) is NOT modelled, so a function
+using one leaves tier T1 - which is how C18's "does not read the time zone" is decided for functions under contract.
+"""
+import ast
+
+import z3
+
+from .values import (Num, Bool, NoneT, NONE, Str, Tup, Handle, Opaque, Builtin, ClassV, I, R, B, IntS, RealS, Unsupported,
+                     SpecError)
+from .models import round_t
+
+DAY_US = 86400 * 10 ** 6
 
 
 def install(E):
-    pass
+    M = E.models
+    DAYS = z3.Function("DAYS", IntS, IntS, IntS, IntS)
+    CY = z3.Function("CY", IntS, IntS)
+    CM = z3.Function("CM", IntS, IntS)
+    CD = z3.Function("CD", IntS, IntS)
+    E.dt_funcs = dict(DAYS=DAYS, CY=CY, CM=CM, CD=CD)
+
+    def leap(y):
+        return z3.And(y % 4 == 0, z3.Or(y % 100 != 0, y % 400 == 0))
+
+    def dim(y, m):
+        return z3.If(z3.Or(m == 1, m == 3, m == 5, m == 7, m == 8, m == 10, m == 12), z3.IntVal(31),
+                     z3.If(m == 2, z3.If(leap(y), z3.IntVal(29), z3.IntVal(28)), z3.IntVal(30)))
+
+    E.dt_dim = dim
+    E.dt_leap = leap
+
+    def valid(y, m, d):
+        return z3.And(y >= 1, y <= 9999, m >= 1, m <= 12, d >= 1, d <= dim(y, m))
+
+    E.dt_valid = valid
+
+    def days_facts(P, y, m, d):
+        """instances of the calendar axioms around the civil date (y, m, d)"""
+        E.assume_used("A-DT")
+        P.assume(DAYS(z3.IntVal(1970), z3.IntVal(1), z3.IntVal(1)) == 0)
+        P.assume(DAYS(y, m, d) == DAYS(y, m, z3.IntVal(1)) + d - 1)
+        first = DAYS(y, m, z3.IntVal(1))
+        P.assume(z3.Implies(m < 12, DAYS(y, m + 1, z3.IntVal(1)) == first + dim(y, m)))
+        P.assume(z3.Implies(m == 12, DAYS(y + 1, z3.IntVal(1), z3.IntVal(1)) == first + 31))
+        P.assume(z3.Implies(m > 1, first == DAYS(y, m - 1, z3.IntVal(1)) + dim(y, m - 1)))
+        P.assume(z3.Implies(m == 1, first == DAYS(y - 1, z3.IntVal(12), z3.IntVal(1)) + 31))
+        # year length, both directions (for the year unit)
+        P.assume(DAYS(y + 1, z3.IntVal(1), z3.IntVal(1)) == DAYS(y, z3.IntVal(1), z3.IntVal(1)) + z3.If(leap(y), 366, 365))
+        P.assume(z3.Implies(valid(y, m, d), z3.And(CY(DAYS(y, m, d)) == y, CM(DAYS(y, m, d)) == m, CD(DAYS(y, m, d)) == d)))
+        P.assume(z3.Implies(valid(y, m, z3.IntVal(1)), z3.And(CY(first) == y, CM(first) == m, CD(first) == 1)))
+        # position of the month's first day inside the year: Jan 1 + days of the earlier months (linear in DIM)
+        jan1 = DAYS(y, z3.IntVal(1), z3.IntVal(1))
+        acc = z3.IntVal(0)
+        for mm in range(1, 12):
+            acc = acc + dim(y, z3.IntVal(mm))
+            P.assume(DAYS(y, z3.IntVal(mm + 1), z3.IntVal(1)) == jan1 + acc)
+
+    def civil_facts(P, n):
+        """the civil date of day number n is valid and maps back to n"""
+        E.assume_used("A-DT")
+        y, m, d = CY(n), CM(n), CD(n)
+        key = ("civil", str(n))
+        if key in P.ghost:
+            return
+        P.ghost[key] = True
+        P.assume(valid(y, m, d))
+        P.assume(DAYS(y, m, d) == n)
+        days_facts(P, y, m, d)
+        one = z3.IntVal(1)
+        # the neighbouring days: instances of the same axioms at the successor / predecessor civil dates, so that
+        # civil(n + 1) and civil(n - 1) are determined (the code steps over day, month and year ends)
+        days_facts(P, y, m, d + 1)
+        days_facts(P, y, m + 1, one)
+        days_facts(P, y + 1, one, one)
+        days_facts(P, y, m, d - 1)
+        days_facts(P, y, m - 1, dim(y, m - 1))
+        days_facts(P, y - 1, z3.IntVal(12), z3.IntVal(31))
+        for nn in (n + 1, n - 1):
+            P.assume(valid(CY(nn), CM(nn), CD(nn)))
+            P.assume(DAYS(CY(nn), CM(nn), CD(nn)) == nn)
+
+    E.dt_days_facts = days_facts
+    E.dt_civil_facts = civil_facts
+
+    def mkdt(us):
+        return Opaque("dt", (us,))
+
+    def mktd(us):
+        return Opaque("td", (us,))
+
+    E.mkdt = mkdt
+    E.mktd = mktd
+
+    def dn_of(us):
+        return us / DAY_US          # z3 integer division: floor for the positive divisor
+
+    def tod_of(us):
+        return us % DAY_US
+
+    E.dt_dn = dn_of
+    E.dt_tod = tod_of
+
+    def intarg(v, what):
+        if not (isinstance(v, Num) and v.isint):
+            raise Unsupported("%s must be an int, got %r" % (what, v))
+        return v.t
+
+    # ------------------------------------------------------------------ constructors
+    def _datetime(E, P, ctx, y, m, d, hh=None, mi=None, ss=None, us=None):
+        y, m, d = intarg(y, "year"), intarg(m, "month"), intarg(d, "day")
+        if not ctx.spec:
+            E.oblige(P, "safe.datetime_valid#%d" % E.site(), valid(y, m, d), "safe")
+        days_facts(P, y, m, d)
+        t = DAYS(y, m, d) * DAY_US
+        for v, mult, lim in ((hh, 3600 * 10 ** 6, 24), (mi, 60 * 10 ** 6, 60), (ss, 10 ** 6, 60), (us, 1, 10 ** 6)):
+            if v is not None:
+                x = intarg(v, "time field")
+                if not ctx.spec:
+                    E.oblige(P, "safe.datetime_field#%d" % E.site(), z3.And(x >= 0, x < lim), "safe")
+                t = t + x * mult
+        return [(P, mkdt(t))]
+
+    M["datetime.datetime"] = _datetime
+    E.ext_values["datetime.datetime"] = Builtin("datetime.datetime")
+
+    def _timedelta(E, P, ctx, days=None, seconds=None, microseconds=None, milliseconds=None, minutes=None, hours=None, weeks=None):
+        total = z3.RealVal(0)
+        allint = True
+        for v, mult in ((days, DAY_US), (seconds, 10 ** 6), (microseconds, 1), (milliseconds, 1000), (minutes, 60 * 10 ** 6),
+                        (hours, 3600 * 10 ** 6), (weeks, 7 * DAY_US)):
+            if v is None:
+                continue
+            v = E.num(v)
+            E.need_num(v)
+            if not v.isint:
+                allint = False
+            total = total + v.real() * mult
+        if allint:
+            return [(P, mktd(z3.ToInt(total)))]
+        # a float argument is rounded to the nearest microsecond (ties to even), as CPython does
+        return [(P, mktd(round_t(total)))]
+
+    M["datetime.timedelta"] = _timedelta
+    E.ext_values["datetime.timedelta"] = Builtin("datetime.timedelta")
+
+    def _deepcopy(E, P, ctx, x):
+        if isinstance(x, Opaque) and x.tag in ("dt", "td"):
+            return [(P, x)]
+        raise Unsupported("deepcopy(%r)" % (x,))
+
+    M["copy.deepcopy"] = _deepcopy
+    E.ext_values["copy.deepcopy"] = Builtin("copy.deepcopy")
+
+    # ------------------------------------------------------------------ operators
+    def dt_binop(E, P, ctx, op, a, b):
+        ta = a.tag if isinstance(a, Opaque) else None
+        tb = b.tag if isinstance(b, Opaque) else None
+        if ta not in ("dt", "td") and tb not in ("dt", "td"):
+            return None
+        if isinstance(op, ast.Add):
+            if ta == "dt" and tb == "td":
+                return [(P, mkdt(a.payload[0] + b.payload[0]))]
+            if ta == "td" and tb == "dt":
+                return [(P, mkdt(a.payload[0] + b.payload[0]))]
+            if ta == "td" and tb == "td":
+                return [(P, mktd(a.payload[0] + b.payload[0]))]
+        if isinstance(op, ast.Sub):
+            if ta == "dt" and tb == "td":
+                return [(P, mkdt(a.payload[0] - b.payload[0]))]
+            if ta == "dt" and tb == "dt":
+                return [(P, mktd(a.payload[0] - b.payload[0]))]
+            if ta == "td" and tb == "td":
+                return [(P, mktd(a.payload[0] - b.payload[0]))]
+        if isinstance(op, ast.Div) and ta == "td" and tb == "td":
+            if not ctx.spec:
+                E.oblige(P, "safe.div#%d" % E.site(), b.payload[0] != 0, "safe")
+            return [(P, Num(z3.ToReal(a.payload[0]) / z3.ToReal(b.payload[0]), False))]
+        if isinstance(op, ast.Mult) and ta == "td" and isinstance(b, Num) and b.isint:
+            return [(P, mktd(a.payload[0] * b.t))]
+        if isinstance(op, ast.Mult) and tb == "td" and isinstance(a, Num) and a.isint:
+            return [(P, mktd(b.payload[0] * a.t))]
+        raise Unsupported("datetime arithmetic %s on %r, %r" % (type(op).__name__, a, b))
+
+    M["dt.binop"] = dt_binop
+
+    def dt_compare(E, P, ctx, op, a, b):
+        if not (isinstance(a, Opaque) and isinstance(b, Opaque) and a.tag == b.tag and a.tag in ("dt", "td")):
+            return None
+        x, y = a.payload[0], b.payload[0]
+        if isinstance(op, ast.Lt):
+            return x < y
+        if isinstance(op, ast.LtE):
+            return x <= y
+        if isinstance(op, ast.Gt):
+            return x > y
+        if isinstance(op, ast.GtE):
+            return x >= y
+        return None
+
+    M["dt.compare"] = dt_compare
+
+    def dt_equal(E, P, a, b):
+        if a.tag == b.tag and a.tag in ("dt", "td"):
+            return a.payload[0] == b.payload[0]
+        return None
+
+    M["dt.equal"] = dt_equal
+
+    def dt_minmax(E, P, ctx, vals, ismin):
+        if not all(isinstance(v, Opaque) and v.tag == "dt" for v in vals):
+            raise Unsupported("min/max of mixed values")
+        cur = vals[0].payload[0]
+        for v in vals[1:]:
+            cur = z3.If((v.payload[0] < cur) if ismin else (v.payload[0] > cur), v.payload[0], cur)
+        return [(P, mkdt(cur))]
+
+    M["opaque.minmax"] = dt_minmax
+
+    def dt_isinstance(E, x, name):
+        if name in ("datetime.datetime", "datetime.date"):
+            return isinstance(x, Opaque) and x.tag == "dt"     # A-LIB: datetime is a subclass of date
+        if name == "datetime.time":
+            return isinstance(x, Opaque) and x.tag == "time"
+        return None
+
+    M["dt.isinstance"] = dt_isinstance
+
+    # ------------------------------------------------------------------ attributes & methods (through engine.getattr hook)
+    def dt_attr(E, P, ctx, x, attr):
+        us = x.payload[0]
+        if x.tag == "dt":
+            n = dn_of(us)
+            tod = tod_of(us)
+            if attr in ("year", "month", "day"):
+                civil_facts(P, n)
+                return Num({"year": CY, "month": CM, "day": CD}[attr](n), True)
+            if attr == "hour":
+                return Num(tod / (3600 * 10 ** 6), True)
+            if attr == "minute":
+                return Num((tod / (60 * 10 ** 6)) % 60, True)
+            if attr == "second":
+                return Num((tod / 10 ** 6) % 60, True)
+            if attr == "microsecond":
+                return Num(tod % 10 ** 6, True)
+        if x.tag == "td":
+            if attr == "days":
+                return Num(us / DAY_US, True)
+        return None
+
+    E.dt_attr = dt_attr
+
+    def _replace(E, P, ctx, x, year=None, month=None, day=None, hour=None, minute=None, second=None, microsecond=None):
+        if not (isinstance(x, Opaque) and x.tag == "dt"):
+            raise Unsupported("replace on %r" % (x,))
+        if any(v is not None for v in (hour, minute, second, microsecond)):
+            raise Unsupported("replace of time fields")
+        us = x.payload[0]
+        n = dn_of(us)
+        civil_facts(P, n)
+        y = intarg(year, "year") if year is not None else CY(n)
+        m = intarg(month, "month") if month is not None else CM(n)
+        d = intarg(day, "day") if day is not None else CD(n)
+        if not ctx.spec:
+            E.oblige(P, "safe.replace_valid#%d" % E.site(), valid(y, m, d), "safe")
+        days_facts(P, y, m, d)
+        return [(P, mkdt(DAYS(y, m, d) * DAY_US + tod_of(us)))]
+
+    M["method.replace"] = _replace
+
+    def _isoweekday(E, P, ctx, x):
+        if not (isinstance(x, Opaque) and x.tag == "dt"):
+            raise Unsupported("isoweekday on %r" % (x,))
+        n = dn_of(x.payload[0])
+        return [(P, Num((n + 3) % 7 + 1, True))]     # 1970-01-01 (day 0) was a Thursday = 4
+
+    M["method.isoweekday"] = _isoweekday
+
+    def _total_seconds(E, P, ctx, x):
+        if not (isinstance(x, Opaque) and x.tag == "td"):
+            raise Unsupported("total_seconds on %r" % (x,))
+        return [(P, Num(z3.ToReal(x.payload[0]) / 10 ** 6, False))]
+
+    M["method.total_seconds"] = _total_seconds
